@@ -145,6 +145,9 @@ def _materialise(desc):
     elif v == 2:
         df["temperature"] = 200.0
         df["comment"] = "lab"  # columns the wrapper does not know about
+        # ... some of them named the way the raw CSV exports / other tools / the wrapper's own outputs name things
+        for k_, nm_ in enumerate(("P", "Z-Factor", "Cg", "Viscosity", "mu", "c", "z", "diffusivity", "m-scaled", "m_scaled", "pseudopressure_scaled", "Pressure", "Alpha", "p_i", "pressure_initial")):
+            df[nm_] = np.linspace(1.0 + k_, 7.0 + 3 * k_, len(df))[:: (-1 if k_ % 2 else 1)]
     elif v == 0 and int(desc["u"][4] * 1000) % 3 == 0 and "pressure" in df:
         df = df.set_index("pressure", drop=False)  # indexed BY pressure, the column kept: index name = column label
     elif v == 3 and len(df) >= 4:
